@@ -9,11 +9,12 @@ import Driver.ExtractOps
 import Driver.EncryptOps
 import Driver.StorageOps
 import Driver.ConvertOps
+import Driver.TemplateOps
 /-! JSON-lines driver: one request object per line on stdin, one response per line on stdout.
 `{"op": name, ...}` → `{"ok": ...}` | `{"err": class}` | `{"bad": message}` (malformed request). -/
 open Lean Driver
 
-def handlers : List (String → Json → Option (M Json)) := [CacheOps.handle, IHexOps.handle, ImageOps.handle, VersionOps.handle, SuitOps.handle, SignOps.handle, ExtractOps.handle, EncryptOps.handle, StorageOps.handle, ConvertOps.handle]
+def handlers : List (String → Json → Option (M Json)) := [CacheOps.handle, IHexOps.handle, ImageOps.handle, VersionOps.handle, SuitOps.handle, SignOps.handle, ExtractOps.handle, EncryptOps.handle, StorageOps.handle, ConvertOps.handle, TemplateOps.handle]
 
 def dispatch (j : Json) : Json :=
   match strField j "op" with
